@@ -126,6 +126,11 @@ pub fn handmade() -> Vec<(&'static str, Vec<u8>)> {
         ("leaf-nonshortest-inside", h("d8c8d8c91801")),
         ("leaf-float-integral", h("d8c8d8c9f93c00")),
         ("leaf-float-f32-reducible", h("d8c8d8c9fa3fc00000")),
+        ("leaf-f32-int-alias", h("d8c8d8c9fa4f000001")),
+        ("leaf-f64-int-alias", h("d8c8d8c9fb43e0000000000001")),
+        ("leaf-f64-negint-alias", h("d8c8d8c9fbc3e0000000000001")),
+        ("leaf-f32-negint-alias", h("d8c8d8c9facf000001")),
+        ("leaf-f64-int-alias-in-assertion", h("d8c8a1d8c9fb43e0000000000001d8c901")),
         ("leaf-map-unsorted", h("d8c8d8c9a2026161016162")),
         ("leaf-map-duplicate", h("d8c8d8c9a2016161016162")),
         ("leaf-bad-utf8", h("d8c8d8c962c328")),
